@@ -308,6 +308,48 @@ func reloadMutate(r *Rng, cur *reloadQ, pool map[string]*reloadQ, ntypes int) *r
 	return cp
 }
 
+// reloadZeroOnly derives a configuration whose ONLY difference is a zero-valued resource type added to the max (and to
+// the guaranteed, when set) of one queue without children: "gpu: 0" is a limit (nothing of that type may be used),
+// while a missing type is no limit. Returns nil when no queue qualifies; otherwise the new tree, the queue path and the type.
+func reloadZeroOnly(r *Rng, cur *reloadQ, ntypes int) (*reloadQ, string, string) {
+	cp := cur.clone()
+	type cand struct {
+		q    *reloadQ
+		path string
+		typ  string
+	}
+	var cands []cand
+	var walk func(q *reloadQ, prefix string)
+	walk = func(q *reloadQ, prefix string) {
+		path := q.name
+		if prefix != "" {
+			path = prefix + "." + q.name
+		}
+		if q.name != "root" && len(q.children) == 0 && q.max != nil {
+			// prefer the types the cluster provides; any of the three otherwise
+			for i, t := range coreTypes {
+				if _, ok := q.max[t]; !ok && (i < ntypes || r.Chance(30)) {
+					cands = append(cands, cand{q, path, t})
+				}
+			}
+		}
+		for _, c := range q.children {
+			walk(c, path)
+		}
+	}
+	walk(cp, "")
+	if len(cands) == 0 {
+		return nil, "", ""
+	}
+	c := cands[r.Intn(len(cands))]
+	c.q.max[c.typ] = 0
+	if c.q.guar != nil && r.Chance(60) {
+		c.q.guar[c.typ] = 0
+	}
+	c.q.limits = ""
+	return cp, c.path, c.typ
+}
+
 func (q *reloadQ) collect(prefix string, leaves, dyn map[string]bool) {
 	path := q.name
 	if prefix != "" {
@@ -437,10 +479,20 @@ func reloadGenCase(rng *Rng, maxOps int) (*reloadCase, error) {
 	}
 	cur := tree
 	nconf := 2 + rng.Intn(3)
+	zeroAt := map[int][2]string{} // configuration index -> (queue path, type) of a zero-only change against the previous configuration
 	for i := 0; i < nconf; i++ {
 		cur = reloadMutate(rng, cur, pool, ntypes)
 		w.Configs = append(w.Configs, reloadConfigYAML(cur, preempt, policy, "provided"))
 		cur.collect("", leaves, dyn)
+		if rng.Chance(45) {
+			if z, path, typ := reloadZeroOnly(rng, cur, ntypes); z != nil {
+				zeroAt[len(w.Configs)] = [2]string{path, typ}
+				w.Configs = append(w.Configs, reloadConfigYAML(z, preempt, policy, "provided"))
+				if rng.Chance(50) {
+					cur = z
+				}
+			}
+		}
 		if rng.Chance(25) {
 			w.Configs = append(w.Configs, reloadInvalidConfig(rng, cur, preempt, policy))
 		}
@@ -516,7 +568,38 @@ func reloadGenCase(rng *Rng, maxOps int) (*reloadCase, error) {
 				emit(CoreOp{Kind: "fire_state", App: a})
 			}
 		case x < th[13]:
-			st := emit(CoreOp{Kind: "reload", Conf: rng.Intn(len(w.Configs))})
+			ci := rng.Intn(len(w.Configs))
+			if len(zeroAt) > 0 && rng.Chance(35) {
+				// the zero-only pair: first the configuration without the zero-valued type, then the one with it
+				// (or the other way round), so that the reload changes nothing but the key set of one limit
+				zi := 0
+				for _, k := range sortedIntKeys(zeroAt) {
+					zi = k
+					if rng.Chance(50) {
+						break
+					}
+				}
+				first, second := zi-1, zi
+				if rng.Chance(30) {
+					first, second = zi, zi-1
+				}
+				if st := emit(CoreOp{Kind: "reload", Conf: first}); !st.Err {
+					if st2 := emit(CoreOp{Kind: "reload", Conf: second}); !st2.Err && second == zi {
+						// use the queue: an application with asks of the type the new limit sets to zero
+						z := zeroAt[zi]
+						op := g.opAppAdd()
+						op.Queue, op.PhAsk, op.Hard = z[0], nil, false
+						delete(g.gangApps, op.App)
+						emit(op)
+						for k := 0; k < 2; k++ {
+							emit(CoreOp{Kind: "alloc", App: op.App, Key: g.newKey(op.App), Res: CoreRes{z[1]: int64(1 + rng.Intn(2))}, AgeSec: 3600})
+							emit(CoreOp{Kind: "sched"})
+						}
+					}
+				}
+				continue
+			}
+			st := emit(CoreOp{Kind: "reload", Conf: ci})
 			// aim an application at a queue that has just been put into draining
 			if !st.Err && rng.Chance(50) {
 				var dr []string
@@ -723,4 +806,11 @@ func reloadEngine(o *Opts) {
 
 func init() { engines["reload"] = reloadEngine }
 
-var _ = sort.Strings
+func sortedIntKeys(m map[int][2]string) []int {
+	ks := make([]int, 0, len(m))
+	for k := range m {
+		ks = append(ks, k)
+	}
+	sort.Ints(ks)
+	return ks
+}
